@@ -483,6 +483,155 @@ def h1_history(rep: Report) -> None:
         rep.candidate(key, f"history {m}: differs in {diff}", m, replay)
 
 
+# --- S1: suggestion lists ("did you mean ...") do not depend on set iteration order
+def s1_best_matches(rep: Report) -> None:
+    """messages.best_matches from a source rewrite with the candidate set as an NDSet (solver-ranked
+    iteration): the returned list must equal the canonical one for every rank assignment.  The
+    candidate pool contains case-only variants and names with equal similarity ratio."""
+    K = Kernel("mypy.messages", ["best_matches"], closure=False)
+    rep.kernels_from(K)
+    fn = K["best_matches"]
+    POOLS = [["Callable", "callable", "callablx"], ["handler_a", "handler_A", "handler_b"], ["abc", "Abc", "ABC", "abd"], ["value", "valve", "valuf"]]
+    CUR = ["xallable", "handler_x", "abx", "valux"]
+    ctx = Ctx(max_paths=200000)
+    found: dict = {}
+    n = {"p": 0, "multi": 0}
+
+    def body(c: Ctx) -> None:
+        i = c.choose("pool", len(POOLS))
+        _MODE["ranks"] = {}
+        _MODE["ctx"] = None
+        canon = fn(CUR[i], NDSet(POOLS[i]), 3)
+        _MODE["ctx"] = c
+        try:
+            got = fn(CUR[i], NDSet(POOLS[i]), 3)
+        finally:
+            _MODE["ctx"] = None
+        n["p"] += 1
+        n["multi"] += 1 if len(canon) > 1 else 0
+        c.stats["assert_queries"] += 1
+        if got == canon:
+            c.stats["discharged"] += 1
+        else:
+            c.stats["refuted"] += 1
+            found.setdefault("the order of suggested names depends on set iteration order", (CUR[i], POOLS[i], got, canon))
+
+    ctx.explore(body)
+    rep.add_ctx("S1 best_matches under nondeterministic set iteration", ctx, pools=POOLS)
+    rep.twin("S1: suggestion lists with several names reached", n["multi"] > 0)
+    for key, (cur, pool, got, canon) in found.items():
+        rep.sample({"kernel": "best_matches", "class": key, "misspelt": cur, "candidates": pool, "got": got, "canonical": canon})
+
+        def replay(d: str, cur: str = cur, pool: list = pool) -> tuple[bool, str]:
+            script = f"import mypy.messages as M\nprint(M.best_matches({cur!r}, set({pool!r}), 3))\n"
+            with open(os.path.join(d, "replay.py"), "w") as f:
+                f.write(script)
+            env = dict(os.environ)
+            env.pop("PYTHONPATH", None)
+            outs = set()
+            for seed in range(48):
+                env["PYTHONHASHSEED"] = str(seed)
+                p = subprocess.run([sys.executable, os.path.join(d, "replay.py")], capture_output=True, text=True, env=env, timeout=120)
+                outs.add(p.stdout.strip() or p.stderr[-200:])
+            return len(outs) > 1, f"{len(outs)} distinct suggestion lists over 48 hash seeds: {sorted(outs)[:3]}"
+
+        rep.candidate(key, f"best_matches({cur!r}, {pool}) = {got} vs canonical {canon}", {"misspelt": cur}, replay)
+
+
+# --- H2: recursion guards shared by all modules of a build are left as they were found
+def h2_guard_stacks(rep: Report) -> None:
+    """constraints.infer_constraints (the real function) on types from a real build: a generic protocol
+    template against a NamedTuple, a plain tuple, a nominal implementer and a non-implementer (the
+    solver chooses template, actual and direction).  TypeInfo.inferring / assuming stacks and
+    type_state.inferring are guards shared by every module checked later in the same build: they must be
+    exactly as before when the call returns."""
+    import mypy.build as B
+    import mypy.constraints as CO
+    from mypy.modulefinder import BuildSource
+    from mypy.nodes import TypeInfo
+    from mypy.options import Options
+    from mypy.typestate import type_state
+
+    rep.kernel("mypy.constraints", symx.source_hash(CO.__file__))
+    SRC = (
+        "from typing import Protocol, TypeVar, NamedTuple, Generic, Iterator\n"
+        "T = TypeVar('T')\nS = TypeVar('S', covariant=True)\n"
+        "class HasFirst(Protocol[S]):\n    @property\n    def first(self) -> S: ...\n"
+        "class Boxed(Protocol[T]):\n    def get(self) -> T: ...\n    def put(self, x: T) -> None: ...\n"
+        "class Pair(NamedTuple):\n    first: int\n    second: str\n"
+        "class Impl:\n    @property\n    def first(self) -> int: ...\n    def get(self) -> str: ...\n    def put(self, x: str) -> None: ...\n"
+        "class Other: ...\n"
+        "class GenImpl(Generic[T]):\n    def get(self) -> T: ...\n    def put(self, x: T) -> None: ...\n"
+        "def f1(x: HasFirst[T]) -> T: ...\ndef f2(x: Boxed[T]) -> T: ...\n"
+        "p: Pair\ni: Impl\no: Other\ng: GenImpl[int]\nt: tuple[int, str]\n"
+    )
+    o = Options()
+    o.incremental = False
+    o.cache_dir = os.devnull
+    o.python_version = (3, 12)
+    o.preserve_asts = True
+    res = B.build([BuildSource(None, "gs", SRC)], o)
+    names = res.files["gs"].names
+    templates = {"HasFirst[T]": names["f1"].node.type.arg_types[0], "Boxed[T]": names["f2"].node.type.arg_types[0]}
+    actuals = {k: names[k].node.type for k in ("p", "i", "o", "g", "t")}
+    infos = [n_.node for n_ in names.values() if isinstance(n_.node, TypeInfo)]
+    tn, an = sorted(templates), sorted(actuals)
+    ctx = Ctx()
+    found: dict = {}
+    n = {"p": 0}
+
+    def snapshot() -> tuple:
+        return (tuple((i.fullname, len(i.inferring), len(i.assuming), len(i.assuming_proper)) for i in infos), len(type_state.inferring))
+
+    def body(c: Ctx) -> None:
+        t = tn[c.choose("template", len(tn))]
+        a = an[c.choose("actual", len(an))]
+        direction = [CO.SUBTYPE_OF, CO.SUPERTYPE_OF][c.choose("direction", 2)]
+        before = snapshot()
+        err = None
+        try:
+            CO.infer_constraints(templates[t], actuals[a], direction)
+        except Exception as e:  # noqa: BLE001
+            err = type(e).__name__
+        after = snapshot()
+        n["p"] += 1
+        c.stats["assert_queries"] += 1
+        if err is None and before == after:
+            c.stats["discharged"] += 1
+        else:
+            c.stats["refuted"] += 1
+            changed = [x[0] for x, y in zip(after[0], before[0]) if x != y]
+            found.setdefault("a recursion guard shared by the whole build is left modified by infer_constraints" if err is None else f"infer_constraints raises {err}", (t, a, direction, changed))
+            for i in infos:  # restore for the remaining paths
+                del i.inferring[:]
+
+    ctx.explore(body)
+    rep.add_ctx("H2 recursion-guard stacks after infer_constraints", ctx, templates=tn, actuals=an)
+    rep.twin("H2: calls made", n["p"] > 0)
+    for key, (t, a, direction, changed) in found.items():
+        rep.sample({"kernel": "infer_constraints", "class": key, "template": t, "actual": a, "direction": direction, "guards_changed": changed})
+
+        def replay(d: str) -> tuple[bool, str]:
+            # the order of file arguments must not matter
+            files = {
+                "lib.py": "from typing import Protocol, TypeVar, NamedTuple, Callable\nT = TypeVar('T')\nS = TypeVar('S', covariant=True)\nclass HasFirst(Protocol[S]):\n    @property\n    def first(self) -> S: ...\nclass Pair(NamedTuple):\n    first: int\n    second: str\ndef collect(x: HasFirst[T]) -> list[T]: ...\ndef use(f: Callable[[Pair], object]) -> None: ...\n",
+                "a.py": "from lib import use, collect\n\nuse(collect)\n",
+                "b.py": "from lib import use, collect\n\nuse(collect)\n",
+            }
+            for fn_, text in files.items():
+                with open(os.path.join(d, fn_), "w") as f:
+                    f.write(text)
+            env = dict(os.environ)
+            env.pop("PYTHONPATH", None)
+            outs = []
+            for order in (["a.py", "b.py"], ["b.py", "a.py"]):
+                p = subprocess.run([sys.executable, "-m", "mypy", "--no-incremental", "--no-error-summary", "lib.py"] + order, cwd=d, env=env, capture_output=True, text=True, timeout=600)
+                outs.append((p.returncode, sorted(p.stdout.strip().splitlines())))
+            return outs[0] != outs[1] or outs[0][0] != 0, f"mypy lib.py a.py b.py: {outs[0]}; mypy lib.py b.py a.py: {outs[1]}"
+
+        rep.candidate(key, f"infer_constraints({t}, {a}, direction {direction}): guards changed {changed}", {"template": t, "actual": a}, replay)
+
+
 def main(args: Any) -> int:
     rep = Report(PID, args.tier, "symbolic execution of the real ordering functions from a source rewrite with solver-chosen set iteration orders (NDSet), graphs and State.order permutations; partitioned over processes; replay = unmodified functions under many PYTHONHASHSEEDs")
     KG, KB, _ = load_kernels()
@@ -510,6 +659,9 @@ def main(args: Any) -> int:
         for k, v in fnd.items():
             found.setdefault(k, v)
     h1_history(rep)
+    s1_best_matches(rep)
+    h2_guard_stacks(rep)
+    rep.bounds.append("S1: four candidate pools with case-only variants and equal-ratio ties, every iteration rank assignment; H2: two generic protocol templates x five actual types (NamedTuple, tuple, nominal implementer, generic implementer, non-implementer) x both directions")
     rep.bounds.append("H1: two builds in one process, typeshed VERSIONS table (3 choices) and target version (3 choices) solver-chosen per build; only the known-modules memo and the resets at the top of build.build")
     rep.add_ctx("ordering kernels under nondeterministic set iteration", tot, partitions=len(parts), compared=np_)
     rep.twin("ordering kernels compared on some path", np_ > 0)
